@@ -32,6 +32,10 @@ var boundedRunners = map[string]boundedSpec{
 		Quick: map[string]string{"VERIF_BOUND_HISTORIES": "25"}, Thorough: map[string]string{"VERIF_BOUND_HISTORIES": "400"}},
 	"c16_proofs": {File: "c16_proofs_test.go", PkgDir: "store", Test: "TestVerifBoundedC16",
 		Quick: map[string]string{"VERIF_BOUND_TREES": "6"}, Thorough: map[string]string{"VERIF_BOUND_TREES": "60"}},
+	"c07_clone": {File: "c07_clone_test.go", PkgDir: "fsm", Test: "TestVerifBoundedC07",
+		Quick: map[string]string{"VERIF_BOUND_TRACKERS": "200"}, Thorough: map[string]string{"VERIF_BOUND_TRACKERS": "20000"}},
+	"c10_history": {File: "c10_iter_test.go", PkgDir: "store", Test: "TestVerifBoundedC10History",
+		Quick: map[string]string{"VERIF_BOUND_HISTORIES": "25"}, Thorough: map[string]string{"VERIF_BOUND_HISTORIES": "600"}},
 	"c10_iter": {File: "c10_iter_test.go", PkgDir: "store", Test: "TestVerifBoundedC10",
 		Quick: map[string]string{"VERIF_BOUND_SCENARIOS": "45"}, Thorough: map[string]string{"VERIF_BOUND_SCENARIOS": "1500"}},
 	"c19_unknown_fields": {File: "c19_unknown_fields_test.go", PkgDir: "lib", Test: "TestVerifBoundedC19",
